@@ -1,27 +1,21 @@
-"""Per-property configuration of ./check (streams, trusted base, assumptions)."""
+"""Per-property configuration of ./check: one JSON file per property in tools/props.d/.
+Keys: streams (harness/model stream names), trusted_base, assumptions, explanation,
+manifest {text, design_ref, note, technique}. The strings $KERNEL, $TRANSLATOR, $CORR inside
+trusted_base expand to the shared descriptions below."""
+import glob
+import json
+import os
 
 KERNEL = "Lean 4.33 kernel (thorough tier: re-checked by leanchecker); axioms ⊆ {propext, Classical.choice, Quot.sound}, audited with #print axioms on every property theorem; no sorry/native_decide/bv_decide"
 TRANSLATOR = "tools/gen_lean.py: constants, layouts and tables regenerated from /repo on every run (fails closed on unsupported syntax)"
 CORR = "correspondence harness `vh` (Rust, calls the real crates in-process) vs compiled Lean model `autd3model` on identical op lines; generators and canonical printing are trusted"
 
-PROPS = {
-    "C09": {
-        "streams": ["silencer"],
-        "trusted_base": [KERNEL, CORR,
-                         "Model/Silencer.lean is hand-written (modelled, not verified): tied to silencer.rs by the `silencer` stream only"],
-        "assumptions": ["the silencer value is non-zero (NonZeroU16 on the Rust side)",
-                        "`settled` = internal value exactly on a byte boundary with target equal to it; rate memory arbitrary"],
-        "explanation": "Theorems about Model/Silencer.lean for every v>0, every byte pair and every settled state: completion in v updates, exact trajectory (closed form), shorter arc, monotone/no overshoot, 16-bit range invariant, bounded rate. Tie: every output byte of the real SilencerEmulator over exhaustive 256x256 pairs for small v, boundary/random pairs for large v, winding walks, interrupted transitions and update-rate mode is compared with the model; an observational oracle on the implementation supplies the failing input.",
-    },
-}
-
-MANIFEST_TEXT = {
-    "C09": {
-        "text": "Proof: ten kernel-checked theorems about the Lean model of both silencer filters, for every step count/rate, every byte pair and every settled state (completion within v updates, closed-form trajectory, shorter arc, monotone without overshoot, 16-bit range invariant = no winding state, bounded rate). The model is tied to silencer.rs by a differential run over ~1.5M transitions (exhaustive 256x256 for small v) plus an observational oracle on the real filter.",
-        "design_ref": "5 (C09)",
-        "note": "Trusted: Lean kernel + the three standard axioms; the hand-written model (checked against the code by sampling, exhaustive only for the listed step counts); the harness. The theorems are about the model, not the Rust source.",
-        "technique": "Lean 4 theorems by induction over updates + omega; differential correspondence against the real SilencerEmulator",
-    },
-}
+PROPS, MANIFEST_TEXT = {}, {}
+for p in sorted(glob.glob(os.path.join(os.path.dirname(os.path.abspath(__file__)), "props.d", "*.json"))):
+    pid = os.path.basename(p)[:-5]
+    d = json.load(open(p))
+    d["trusted_base"] = [{"$KERNEL": KERNEL, "$TRANSLATOR": TRANSLATOR, "$CORR": CORR}.get(x, x) for x in d["trusted_base"]]
+    MANIFEST_TEXT[pid] = d.pop("manifest")
+    PROPS[pid] = d
 
 NOT_CLAIMED = {}
